@@ -321,6 +321,8 @@ def run(ctx: Ctx):
 def replay(ctx: Ctx, doc: dict) -> int:
     m = mods()
     inp = doc.get("input", {})
+    if isinstance(inp, dict) and inp.get("held"):
+        return common.replay_full_rerun(ctx, run)   # depends on the calls made before: the whole sweep again
     if "n" in inp:
         n = int(inp["n"])
         r = oracle_number(m, n) if 0 <= n < LIM[3] else None
